@@ -632,6 +632,9 @@ func evalExpr(doc bson.D, e interface{}) interface{} {
 		switch op {
 		case "$subtract":
 			a, b := evalExpr(doc, args[0]), evalExpr(doc, args[1])
+			if a == nil || b == nil { // MongoDB: an arithmetic expression over a missing / null operand is null
+				return nil
+			}
 			return toInt(a) - toInt(b)
 		case "$lte":
 			return CmpVal(evalExpr(doc, args[0]), evalExpr(doc, args[1])) <= 0
@@ -643,6 +646,9 @@ func evalExpr(doc bson.D, e interface{}) interface{} {
 			return CmpVal(evalExpr(doc, args[0]), evalExpr(doc, args[1])) > 0
 		case "$add":
 			a, b := evalExpr(doc, args[0]), evalExpr(doc, args[1])
+			if a == nil || b == nil {
+				return nil
+			}
 			return toInt(a) + toInt(b)
 		}
 		panic("memongo: unsupported expression " + op)
